@@ -235,6 +235,66 @@ theorem half_swap_rejected_nf (e : Epoch) (s hsh st st' : Nat) (a1 a2 : Option A
       simp only [ht, if_false, hst, decide_true] at hv
       split at hv <;> simp_all
 
+/-- Swapping the two halves of an admitted skip certificate is rejected with
+    `InvalidSignature` (whatever stake is declared). -/
+theorem half_swap_rejected_skip (e : Epoch) (s st st' : Nat) (a1 a2 : Option Agg)
+    (h : validateCert e (.skip s a1 a2 st) = .ok) :
+    validateCert e (.skip s a2 a1 st') = .err .invalidSignature := by
+  have hmarks : stakeWhere (Cert.skip s a2 a1 st').marks 0 e.vals =
+      stakeWhere (Cert.skip s a1 a2 st).marks 0 e.vals := by
+    congr 1; funext i
+    cases a1 <;> cases a2 <;> simp [Cert.marks, Cert.halves, optHalf, Bool.or_comm]
+  have hadm := (cert_admitted_iff e _).mp h
+  obtain ⟨ht, hst, hh⟩ := hadm
+  cases hv : validateCert e (.skip s a2 a1 st') with
+  | ok =>
+    -- some half is present (the threshold is met with non-zero total), and it would verify two payloads
+    exfalso
+    cases a1 with
+    | some x =>
+      have := agg_payload_unique e _ _ h hv x x (.skip s) (.skipFallback s)
+        (by simp [Cert.halves, optHalf]) (by cases a2 <;> simp [Cert.halves, optHalf]) rfl
+      cases this
+    | none =>
+      cases a2 with
+      | some y =>
+        have := agg_payload_unique e _ _ h hv y y (.skipFallback s) (.skip s)
+          (by simp [Cert.halves, optHalf]) (by simp [Cert.halves, optHalf]) rfl
+        cases this
+      | none =>
+        have hz : stakeWhere (Cert.skip s none none st).marks 0 e.vals = 0 := by
+          have : (Cert.skip s none none st).marks = fun _ => false := by
+            funext i; simp [Cert.marks, Cert.halves, optHalf]
+          rw [this]; exact stakeWhere_false _ _
+        rw [hz] at hst
+        simp only [Cert.threshold, AgModel.Gen.QUORUM_THRESHOLD_NUM, AgModel.Gen.QUORUM_THRESHOLD_DEN] at hst
+        omega
+  | panic => exact absurd hv (validateCert_total e _ ht)
+  | err x =>
+    cases x with
+    | invalidSignature => rfl
+    | insufficientStake =>
+      exfalso
+      unfold validateCert checkThreshold isMet at hv
+      rw [hmarks] at hv
+      have hth : (Cert.skip s a2 a1 st').threshold = (Cert.skip s a1 a2 st).threshold := rfl
+      rw [hth] at hv
+      simp only [ht, if_false, hst, decide_true] at hv
+      split at hv <;> simp_all
+
+/-- A fast-final certificate is a notar aggregate with a higher threshold: whatever is admitted as
+    fast-final is admitted as notarization for the same slot and block (the converse needs 4/5). -/
+theorem fastFinal_implies_notar (e : Epoch) (s hsh st st' : Nat) (a : Agg)
+    (h : validateCert e (.fastFinal s hsh a st) = .ok) : validateCert e (.notar s hsh a st') = .ok := by
+  rw [cert_admitted_iff] at h ⊢
+  obtain ⟨ht, hst, hh⟩ := h
+  refine ⟨ht, ?_, hh⟩
+  have hm : (Cert.notar s hsh a st').marks = (Cert.fastFinal s hsh a st).marks := rfl
+  rw [hm]
+  simp only [Cert.threshold, AgModel.Gen.QUORUM_THRESHOLD_NUM, AgModel.Gen.QUORUM_THRESHOLD_DEN,
+    AgModel.Gen.STRONG_QUORUM_THRESHOLD_NUM, AgModel.Gen.STRONG_QUORUM_THRESHOLD_DEN] at hst ⊢
+  omega
+
 /-- The thresholds the model uses are the constants of the source: 3/5 for notar, notar-fallback,
     skip and final certificates, 4/5 for fast-final. -/
 theorem thresholds_are_source :
